@@ -105,6 +105,16 @@ def fixed_data(n, p):
 # ------------------------------------------------------------------ exhaustive box
 
 
+def evaluate_outcome(scorer, arr):
+    try:
+        return "value", scorer.evaluate(arr), ""
+    except ValueError as e:
+        return "ValueError", None, str(e)
+    except Exception as e:  # noqa: BLE001 - the class of the exception is the observed outcome
+        return type(e).__name__, None, str(e)
+
+
+
 def box_cases(tier):
     ns = [4, 5, 6] if tier == "quick" else [4, 5, 6, 7, 8]
     for name in SCORERS:
@@ -127,14 +137,16 @@ def check_box(case):
         valid = is_valid(name, p, n, cut)
         ordered = all(b > a for a, b in zip(cut[:-1], cut[1:]))
         arr = np.asarray([cut], dtype=np.int64)
-        try:
-            out = scorer.evaluate(arr)
-            outcome = "value"
-        except ValueError:
-            outcome = "ValueError"
-        except Exception as e:  # noqa: BLE001
-            outcome = type(e).__name__
-            err = str(e)
+        outcome, out, err = evaluate_outcome(scorer, arr)
+        if min(cut) >= 0:
+            # the same tuple as an unsigned / narrower integer array must behave identically
+            for dt in (np.uint64, np.uint8, np.int32):
+                o2, out2, err2 = evaluate_outcome(scorer, arr.astype(dt))
+                same = o2 == outcome and (o2 != "value" or np.allclose(np.asarray(out2), np.asarray(out), rtol=1e-12, atol=1e-12, equal_nan=True))
+                if not same:
+                    raise Violation(f"cuts given as {np.dtype(dt).name} are treated differently from the same int64 cuts",
+                                    scorer=name, n=n, p=p, cut=list(cut), int64_outcome=outcome, other_outcome=o2,
+                                    other_value=np.asarray(out2).tolist() if o2 == "value" else None)
         if not valid:
             if ordered and (cut[0] < 0 or cut[-1] > n):
                 n_nontrivial += 1
@@ -176,7 +188,8 @@ def malformed_cases(draw, tier):
     p = draw(st.integers(1, 2))
     k = width(name)
     kind = draw(st.sampled_from(["mixed_batch", "float", "bool", "wrong_width", "zero_rows", "three_d", "list",
-                                 "row_vector", "float_integral", "valid_batch", "int32", "empty_list"]))
+                                 "row_vector", "float_integral", "valid_batch", "int32", "empty_list", "uint_descending",
+                                 "flat_multiple"]))
     case = {"scorer": name, "n": n, "p": p, "kind": kind}
     rows = [sorted(draw(st.lists(st.integers(-2, n + 2), min_size=k, max_size=k))) for _ in range(draw(st.integers(1, 5)))]
     case["rows"] = rows
@@ -214,6 +227,14 @@ def check_malformed(case):
         rows = valid_pool[: len(rows)]
         arg = np.asarray(rows, dtype=np.int32)
         expect_error = False
+    elif kind == "uint_descending":
+        # descending rows in an unsigned dtype: differences would wrap around
+        arg = np.asarray([list(reversed(valid_pool[0])), valid_pool[1]], dtype=[np.uint64, np.uint32, np.uint8][n % 3])
+    elif kind == "flat_multiple":
+        # a flat sequence holding several cuts is not a cuts array with the expected number of columns
+        arg = [int(v) for r in valid_pool[:2] for v in r]
+        if case["p"] == 2:
+            arg = np.asarray(arg, dtype=np.int64)
     elif kind == "float":
         arg = np.asarray(valid_pool[:2], dtype=float) + 0.5
     elif kind == "float_integral":
@@ -271,11 +292,11 @@ def check_malformed(case):
 FACETS = [
     Facet(name="integer_box", kind="enumerate", enumerate=box_cases, check=check_box, exhaustive=True,
           rule=("every integer tuple of [-2,n+2]^k (k=2,3,4) for n in {4,5,6} (thorough: up to 8 for k<=3), p in {1,2}, 17 scorers; "
-                "invalid => ValueError, valid => accepted and equal to the definitional value; non-trivial = tuples that "
+                "invalid => ValueError, valid => accepted and equal to the definitional value, the same tuple as uint64/uint8/int32 must behave identically; non-trivial = tuples that "
                 "are strictly increasing but reach outside 0..n (each tuple visited once, so distinct by construction)"),
           shards_quick=16, shards_thorough=16, max_samples=2),
     Facet(name="malformed_arrays", check=check_malformed, strategy=malformed_cases,
           rule=("batches mixing valid and invalid rows, float / integral-float / bool / int32 / wrong-width / 0-row / 3-D "
-                "arrays, nested lists, 1-D row vectors, empty list; every case is non-trivial"),
+                "arrays, nested lists, 1-D row vectors, empty list, descending rows in unsigned dtypes, flat sequences holding several cuts; every case is non-trivial"),
           n_quick=600, n_thorough=6000, shards_quick=4, shards_thorough=8),
 ]
